@@ -122,7 +122,8 @@ theorem loadsWith_iff {r : Except LErr H} {p : H → Bool} : loadsWith r p = tru
 
 On `Legacy.Sample.lang` (classes `Host` with the defense `patched`, `Net`; associations `NetCon` (`hosts`, `nets`), `Peer`).
 Integer keys are evaluated by the kernel; a key that is not a number has to be a string, whose `String.toInt?` the kernel
-cannot evaluate: those witnesses are stated for any key `k` with `k.toInt? = none`. -/
+cannot evaluate: those witnesses are stated for any key `k` with `k.toInt? = none`; the two whose Python side is the
+`ValueError` of `int(key)` itself also ask `keyPlain k` (a text such as `" 5"` / `"+5"`, which CPython's `int` accepts, is `unmodelled`). -/
 
 def clsEnv : ModelEnv := { eqA := fun _ _ => false, eqL := fun _ _ => false, whileFuel := 8 }
 def clsFac : Factory := { L := Legacy.Sample.lang, floatOk := fun t => t == "0.0" || t == "1.0" || t == "0.5" }
@@ -228,7 +229,7 @@ theorem old_class_unknown_assoc_class :
 
 /-- **(`ValueError`, `validation`)**: a member id of an association that is not a number — Python `int(id)`, the hand
 model's `Ser.resolveIds` does not tell it from an unknown id -/
-theorem old_class_member_not_int (k : Key) (hk : k.toInt? = none) :
+theorem old_class_member_not_int (k : Key) (hk : k.toInt? = none) (hp : keyPlain k = true) :
     let d : OldDoc := { associations := [{ metaconcept := "NetCon", lf := "hosts", left := [k], rf := "nets", right := [] }] }
     (OldWf clsFac.L true d ∧ DefsOkOf clsFac d (fun _ => true)) ∧
     updater_process_model clsFiles clsEnv (encOld true "m" d) clsFac = .error (.py .valueError) ∧
@@ -241,12 +242,13 @@ theorem old_class_member_not_int (k : Key) (hk : k.toInt? = none) :
     exact assocBody_left_not_int clsEnv clsFac true _ (hwf.1.assocs _ List.mem_cons_self) _
       ⟨"NetCon", "hosts", "Host", none, "nets", "Net", none⟩
       (show (MS.assocClasses Legacy.Sample.lang).find? (·.cls = "NetCon") = some _ from by decide) (by decide) hm
+      (fun k' hk' => by rw [List.mem_singleton.1 hk']; exact hp)
   · show (loadOldAssoc Legacy.Sample.lang {} _ >>= _) >>= _ = _
     rw [loadOld_left_not_int _ _ _ hm]; rfl
 
 /-- **(`ValueError`, `lookupError`)**: the asset id of an entry point that is not a number — Python `int(asset_id)`,
 `Ser.loadAttacker` does not tell it from an unknown id -/
-theorem old_class_entry_point_not_int (k : Key) (hk : k.toInt? = none) :
+theorem old_class_entry_point_not_int (k : Key) (hk : k.toInt? = none) (hp : keyPlain k = true) :
     let d : OldDoc := { attackers := [(.i 3, { name := "eve", entry := [(k, ["access"])] })] }
     (OldWf clsFac.L true d ∧ DefsOkOf clsFac d (fun _ => true)) ∧
     updater_process_model clsFiles clsEnv (encOld true "m" d) clsFac = .error (.py .valueError) ∧
@@ -257,7 +259,7 @@ theorem old_class_entry_point_not_int (k : Key) (hk : k.toInt? = none) :
   refine ⟨hwf, ?_, ?_⟩
   · refine process_model_first_attacker_err clsFiles clsEnv clsFac true "m" d _ [] rfl rfl rfl _ ?_
     exact attackerBody_ep_not_int clsEnv d.attackers hwf.1.attackers _ List.mem_cons_self
-      (nodup_one _) (k, ["access"]) [] rfl hk _
+      (nodup_one _) (k, ["access"]) [] rfl hk hp _
   · simp only [loadOld, Ser.loadAttacker, show (Key.i 3).toInt? = some 3 from rfl, hk, List.foldlM_cons,
       List.foldlM_nil, List.mapM_cons, bind, Except.bind, pure, Except.pure, Option.bind_none, Option.map_none, d]
 
